@@ -57,6 +57,7 @@ def run(chk):
     out = cl.run_scenarios(binary, sc + walks, wd, "c09")
     outs, pfl = cl.validate_conn(chk, out, wd, "c09", shard=200, ppt=ppt, rcm=rcm)
     cl.report_conn(chk, outs, pfl, {"P09"}, WHAT)
+    cl.validate_stream(chk, out, wd, "c09", ppt=ppt, rcm=rcm)
     chk.cov["traces_validated_against_impl"] = len(outs)
     chk.cov["evaluations"] = len(outs)
     chk.cov["distinct_nontrivial"] = len(sc)
